@@ -111,7 +111,7 @@ pub trait RollingValidBinary<T: IsNone>: Vec1View<T> {
                     sum2_b += vb * vb;
                     sum_ab += va * vb;
                 };
-                let res = if n >= min_periods {
+                let res = if n >= min_periods && n > 1 {
                     let n_f64 = n.f64();
                     let mean_a = sum_a / n_f64;
                     let mut var_a = sum2_a / n_f64;
